@@ -95,7 +95,7 @@ def evaluate(t, vals):
     if t.op == '~=':
         return int(a != b), wr, oc
     d = a - b
-    oc = oc or d != wrap32(d)
+    oc = oc or d != wrap32(d) or d == -2**31       # either difference (a-b or b-a) overflows
     if t.op == '<':
         return int(a < b), wr, oc
     if t.op == '<=':
